@@ -40,6 +40,8 @@ type Cfg struct {
 	CrashPoints      int     `json:"crash_points"` // 0 = none, -1 = all, n = seeded subset of about n
 	Torn             bool    `json:"torn"`
 	SchedSeed        uint64  `json:"sched_seed"`
+	PCT         int     `json:"pct"`
+	PCTSteps    int     `json:"pct_steps"`
 }
 
 type Op struct {
@@ -88,6 +90,9 @@ func (H) Gen(p string, seed uint64, tier string) *hx.Case {
 	}
 	if r.Chance(0.3) {
 		cfg.TimerP = 0.1
+	}
+	if r.Chance(0.3) {
+		cfg.PCT, cfg.PCTSteps = r.Range(1, 4), []int{50, 300, 2000, 10000}[r.Intn(4)]
 	}
 	if tier == "thorough" {
 		cfg.CrashPoints = -1
@@ -617,7 +622,7 @@ func (H) Run(t *testing.T, c *hx.Case) *hx.Outcome {
 	os.MkdirAll(dir, 0770)
 	simos.Reset(dir)
 	r := &run{cfg: cfg, out: out, dir: dir}
-	scfg := simrt.Config{Seed: cfg.SchedSeed, YieldP: cfg.YieldP, TimerP: cfg.TimerP, MaxConsec: cfg.MaxConsec, StepBudget: 3_000_000}
+	scfg := simrt.Config{Seed: cfg.SchedSeed, YieldP: cfg.YieldP, TimerP: cfg.TimerP, MaxConsec: cfg.MaxConsec, PCT: cfg.PCT, PCTSteps: cfg.PCTSteps, StepBudget: 3_000_000}
 
 	if os.Getenv("VSIM_DEBUG") != "" {
 		simrt.Debug = func(w, id string) { fmt.Fprintln(os.Stderr, "DBG", w, id, runtime.VerifCtr()) }
